@@ -13,7 +13,7 @@ import (
 func (c *Ctx) set(v ssa.Value, x *Val) { c.vals[v] = c.nameVal(x, v.Name()) }
 
 func (c *Ctx) sweepObl(name, cond, src string) {
-	if !c.con.Sweep || c.inSpec {
+	if !(c.con.Sweep || sweepAll) || c.inSpec {
 		return
 	}
 	c.addObl("S", c.fnName()+"."+name, cond, src)
